@@ -111,7 +111,10 @@ func c14r1(w *World, rr *RuleRun) {
 	}
 	rr.Oblige(shortFuncName(senderG), "the sender sends at most once on the completion channel", w.P.Pos(senderG.Pos()), nSend <= 1, fmt.Sprintf("%d send sites", nSend))
 	// in Query: order after registration
-	adds := w.CallsIn(q, addT, false)
+	var adds []ssa.Instruction
+	for _, lc := range w.callsLifted(q, addT) {
+		adds = append(adds, lc.Root)
+	}
 	// cancelSend: result #1 of the WithCancel whose #0 is passed to the sender
 	isCancel := func(i ssa.Instruction) bool {
 		c, ok := i.(*ssa.Call)
